@@ -1,10 +1,16 @@
-"""C14 — debug_pretty_print (partial: structural necessary conditions only).
+"""C14 — debug_pretty_print: step tables of the driver and of the indent writer, with structural clauses as fall-back.
 
-Decided structurally (each a condition whose breach changes the output) - clauses (1)-(5) - and, when every construct of the indent writer is modelled, the writer
-itself as a transducer - clause (6): for every step (open an item, close an item, write one line fragment) and every abstract pre-state of the invariant (indent stack of
-any depth = one summarised run + explicit top; arbitrary input string = text / line break / rest) the emitted text and the post-state equal the reference transducer,
-and no step panics.  With (1)-(3), C09 and the written induction this gives the documented layout.  Clause (6) gives no verdict (NOTE line, recorded in the evidence) on a
-tree whose writer uses a construct the analysis does not model; it never turns such a tree into a violation.
+Semantic clauses (abstract interpretation of the MIR, vlib/absint/ppstep.py + ppdriver.py; nothing is addressed by private name):
+  (6) the indent writer as a transducer: for every step (open an item, close an item, write one line fragment) and every abstract pre-state of the invariant (indent
+      stack of any depth = one summarised run + explicit top; arbitrary input string = text / line break / rest) the emitted text and the post-state equal the reference
+      transducer, and no step panics
+  (7) the driver: the fmt bodies format the start node's payload, hand the edge-dispatch function a traversal rooted at the start node positioned after Start(x) and a
+      fresh writer, format exactly the node the dispatch function reports and return when it reports none; the dispatch function, per edge of the traversal, opens one
+      item for Start(c) with the `last` flag = "c has no next sibling" and returns c, closes one item for End(c), stops at End(x) / exhaustion, taking one edge per step
+With C09 (the edges are the Euler tour of the subtree) and the written induction, (6)+(7) are the documented layout.  Each of them gives a verdict only when every construct
+on its paths is modelled; otherwise it prints a NOTE, records `undecided_clauses` in the evidence and the structural clauses take over - an unmodelled construct never
+becomes a violation and never counts as "held".
+Structural clauses (origin / dominance rules over the MIR; (1)-(3) are the fall-back for (7), (4) for (6); (5) always runs):
   (1) confinement: both fmt impls obtain node ids only from self.id and from the ids returned by prepare_next_node_printing, which returns only payloads of Start edges of the
       one Traverse constructed from *self.id (origin rules) - with C09 this gives exactly the subtree, in pre-order
   (2) pairing: in prepare_next_node_printing open_item is called at exactly one site, on the Start arm, and the id returned is that Start's payload; close_item at exactly one
@@ -27,9 +33,9 @@ INDEX = "<crate::arena::Arena<T> as core::ops::index::Index<crate::id::NodeId>>:
 
 def main(tier):
     run = Run("C14", tier, level="other")
-    run.explanation = ("Structural necessary conditions only (confinement to the subtree's pre-order, open/close pairing, last-sibling flag origin, agreement of the guide-string tables, "
-                       "Display/Debug body identity). The main clause - exact text layout for every tree and payload, and panic-freedom of the indent arithmetic - is a functional property "
-                       "of a string-producing state machine over unbounded inputs that this static analysis does not decide; it is not claimed.")
+    run.explanation = ("Step tables of the printing driver and of the indent writer (abstract interpretation; each compared with a reference) plus the format-mode clause; structural "
+                       "origin/dominance clauses take over when a step table meets an unmodelled construct. The composition of the step tables into the whole text (induction over the "
+                       "Euler tour, C09) is a written argument, not machine-checked, so the level stays `other`.")
     run.rule = "obligation = one structural fact (call site, origin, table row); non-trivial = distinct facts"
     prog = facts.load("dev", None)
     idx = rules.Index(prog)
